@@ -20,9 +20,18 @@ Verdict(c) ==
       \* best * 1001 * mx  against  1000 * hard * mx + want     (all at scale 2^60)
       lhs == DMulInt(DMulInt(c.best, 1001), mx)
       rhs == DAdd(DMulInt(DMulInt(c.hard, 1000), mx), DInt(want))
-  IN IF mx <= 0 THEN {"driver-similarity-max-errors"}
-     ELSE IF BLe(BMul(DAbs(DSub(lhs, rhs)), P40), BAdd(DAbs(rhs), <<1>>)) THEN {}
-     ELSE {"logged-best-not-(1000*hardness+documented-similarity)/1001"}
+  IN (IF mx <= 0 THEN {"driver-similarity-max-errors"}
+      ELSE IF BLe(BMul(DAbs(DSub(lhs, rhs)), P40), BAdd(DAbs(rhs), <<1>>)) THEN {}
+      ELSE {"logged-best-not-(1000*hardness+documented-similarity)/1001"})
+     \* the independent feasibility check of a generated instance: as many items as the template, every item fits
+     \* the bin, and the total area still needs the template's k bins
+     \cup (IF Sim!Copies(c.items) # Sim!Copies(c.t.titems) THEN {"final-instance:item-count"} ELSE {})
+     \cup (IF \E i \in 1..Len(c.items) : ~(c.items[i][1] >= 1 /\ c.items[i][2] >= 1 /\ c.items[i][3] >= 1
+                                            /\ ((c.items[i][1] <= c.t.W /\ c.items[i][2] <= c.t.H)
+                                                \/ (c.items[i][2] <= c.t.W /\ c.items[i][1] <= c.t.H)))
+           THEN {"final-instance:item-does-not-fit-the-bin"} ELSE {})
+     \cup (IF Sim!Area(c.items) <= (c.t.k - 1) * c.t.W * c.t.H \/ Sim!Area(c.items) > c.t.k * c.t.W * c.t.H
+           THEN {"final-instance:area-does-not-need-the-templates-bins"} ELSE {})
 
 Init == tid = 0
 Next == /\ tid < NCases /\ tid' = tid + 1
